@@ -11,6 +11,12 @@ package cache
 
 //@ ghostsum stored over map[string]*MemoryEntry of len(v.Data)
 
+// held is the client-side reservation token: the bytes the calling thread has reserved and not
+// yet converted into an entry or released. It is thread-local ghost state (not guarded by mu);
+// the rely "held <= totalSize - stored" (my reservation is part of the outstanding ones) is what
+// the requires_locked clauses below assume when the lock is taken.
+//@ ghost field BlobMemoryCache.held int
+
 //@ lockinv BlobMemoryCache.mu self c guards contents entries, totalSize
 //@   invariant balance: stored(c.entries) <= c.totalSize
 //@   invariant budget: c.totalSize <= c.config.MaxSize
@@ -21,7 +27,9 @@ package cache
 //@ func BlobMemoryCache.TryReserve
 //@   requires bshape(c)
 //@   nopanic
-//@   modifies c.totalSize
+//@   modifies c.totalSize, c.held
+//@   ghost_set c.held = c.held + size if result
+//@   ensures token: c.held == old(c.held) + (result ? size : 0)
 //@   ensures admitted_iff_fits: result <==> old(c.totalSize) + size <= c.config.MaxSize
 //@   ensures reserved: result ==> c.totalSize == old(c.totalSize) + size
 //@   ensures refused: !result ==> c.totalSize == old(c.totalSize)
@@ -29,16 +37,23 @@ package cache
 // The caller gives back a reservation it holds: size is at most the outstanding reservations.
 //@ func BlobMemoryCache.ReleaseReservation
 //@   requires bshape(c)
+//@   requires holds_token: c.held >= size
 //@   requires_locked holds_reservation: size <= c.totalSize - stored(c.entries)
 //@   nopanic
-//@   modifies c.totalSize
+//@   modifies c.totalSize, c.held
+//@   ghost_set c.held = c.held - size
+//@   ensures token: c.held == old(c.held) - size
 //@   ensures released: c.totalSize == old(c.totalSize) - size
 
 // Add converts a reservation the caller holds into a stored entry of exactly that many bytes.
 //@ func BlobMemoryCache.Add
 //@   requires bshape(c) && entry != nil && allocated(entry)
+//@   requires holds_token: c.held >= len(entry.Data)
+//@   requires verified: hashok(sliceid(entry.Data), entry.Name)
 //@   requires_locked holds_reservation: len(entry.Data) <= c.totalSize - stored(c.entries)
-//@   modifies map c.entries
+//@   modifies map c.entries, c.held
+//@   ghost_set c.held = c.held - len(entry.Data) if result
+//@   ensures token: c.held == old(c.held) - (result ? len(entry.Data) : 0)
 //@   ensures added_iff_new: result <==> !old(entry.Name in c.entries)
 //@   ensures stored_entry: result ==> c.entries[entry.Name] == entry && stored(c.entries) == old(stored(c.entries)) + len(entry.Data)
 //@   ensures unchanged_if_dup: !result ==> stored(c.entries) == old(stored(c.entries)) && c.entries[entry.Name] == old(c.entries[entry.Name])
